@@ -15,6 +15,7 @@ import (
 	"strings"
 	"sync"
 	"sync/atomic"
+	"time"
 
 	sentinel "github.com/alibaba/sentinel-golang/api"
 	"github.com/alibaba/sentinel-golang/core/base"
@@ -62,6 +63,7 @@ type Interp struct {
 	hot    []*hotspot.Rule
 	soaked bool
 	soakAt uint64
+	rv     *rendezvous
 }
 
 func New() vh.Interp {
@@ -69,7 +71,7 @@ func New() vh.Interp {
 	runtime.LockOSThread()
 	debug.SetGCPercent(-1)
 	vh.Silence()
-	it := &Interp{clk: vh.NewClock(epoch0), base: epoch0}
+	it := &Interp{clk: vh.NewClock(epoch0), base: epoch0, rv: &rendezvous{}}
 	it.ents = map[string]*ent{}
 	it.chains = map[string]*base.SlotChain{}
 	return it
@@ -168,6 +170,62 @@ func (s *recSlot) OnCompleted(c *base.EntryContext) {
 	s.it.log = append(s.it.log, fmt.Sprintf("C/%d/%s/%d/%s/%d", s.id, c.Resource.Name(), c.Input.BatchCount, errTag(c.Err()), rt))
 }
 
+// rendezvous is a user statistic slot that does nothing to the account.  While a `racexit` is in progress its OnCompleted
+// waits until two callers have arrived or a short (real) time has passed: if Exit lets two overlapping calls through, both
+// are inside the statistic phase at the same time; if Exit is idempotent only one arrives and leaves after the timeout.
+type rendezvous struct {
+	mu    sync.Mutex
+	armed bool
+	n     int
+	ch    chan struct{}
+}
+
+func (r *rendezvous) arm() {
+	r.mu.Lock()
+	r.armed, r.n, r.ch = true, 0, make(chan struct{})
+	r.mu.Unlock()
+}
+
+func (r *rendezvous) disarm() {
+	r.mu.Lock()
+	r.armed = false
+	r.mu.Unlock()
+}
+
+func (r *rendezvous) wait() {
+	r.mu.Lock()
+	if !r.armed {
+		r.mu.Unlock()
+		return
+	}
+	r.n++
+	if r.n == 2 {
+		close(r.ch)
+	}
+	ch := r.ch
+	r.mu.Unlock()
+	select {
+	case <-ch:
+	case <-time.After(8 * time.Millisecond):
+	}
+}
+
+type waitSlot struct {
+	order uint32
+	rv    *rendezvous
+}
+
+func (s *waitSlot) Order() uint32                                           { return s.order }
+func (s *waitSlot) OnEntryPassed(_ *base.EntryContext)                      {}
+func (s *waitSlot) OnEntryBlocked(_ *base.EntryContext, _ *base.BlockError) {}
+func (s *waitSlot) OnCompleted(_ *base.EntryContext)                        { s.rv.wait() }
+
+var resTypes = map[string]base.ResourceType{"common": base.ResTypeCommon, "web": base.ResTypeWeb, "rpc": base.ResTypeRPC,
+	"api_gateway": base.ResTypeAPIGateway, "db_sql": base.ResTypeDBSQL, "cache": base.ResTypeCache, "mq": base.ResTypeMQ}
+
+var resTypeList = []base.ResourceType{base.ResTypeCommon, base.ResTypeWeb, base.ResTypeRPC, base.ResTypeAPIGateway,
+	base.ResTypeDBSQL, base.ResTypeCache, base.ResTypeMQ}
+
 func (it *Interp) chain(spec string) *base.SlotChain {
 	if spec == "default" {
 		return nil // api.Entry falls back to the global chain
@@ -194,6 +252,8 @@ func (it *Interp) chain(spec string) *base.SlotChain {
 		for i := 0; i < len(p[3]); i++ {
 			if p[3][i] == 'S' {
 				sc.AddStatSlot(&stdSlot{order: uint32(10 * (i + 1))})
+			} else if p[3][i] == 'w' {
+				sc.AddStatSlot(&waitSlot{order: uint32(10 * (i + 1)), rv: it.rv})
 			} else {
 				sc.AddStatSlot(&recSlot{order: uint32(10 * (i + 1)), id: int(p[3][i] - '0'), it: it})
 			}
@@ -298,7 +358,7 @@ func (it *Interp) soak(G, N int, R, seed uint64) string {
 				x4 := lcg(x3)
 				x = x4
 				res := "s" + strconv.FormatUint(x1%R, 10)
-				opts := []sentinel.EntryOption{sentinel.WithBatchCount(uint32(x3%3 + 1))}
+				opts := []sentinel.EntryOption{sentinel.WithBatchCount(uint32(x3%3 + 1)), sentinel.WithResourceType(resTypeList[x4%7])}
 				if x2%2 == 0 {
 					opts = append(opts, sentinel.WithTrafficType(base.Inbound))
 				}
@@ -361,11 +421,20 @@ func (it *Interp) Step(t []string, op string) string {
 		}
 		return ""
 	case "entry":
+		rty := base.ResTypeCommon
+		if len(t) > 4 && strings.HasPrefix(t[4], "type=") {
+			v, ok := resTypes[t[4][5:]]
+			if !ok {
+				panic("bad resource type " + t[4])
+			}
+			rty = v
+			t = append(append([]string{}, t[:4]...), t[5:]...)
+		}
 		id, res := t[1], t[2]
 		if _, dup := it.ents[id]; dup {
 			panic("duplicate id")
 		}
-		opts := []sentinel.EntryOption{sentinel.WithBatchCount(uint32(vh.U(t[4])))}
+		opts := []sentinel.EntryOption{sentinel.WithBatchCount(uint32(vh.U(t[4]))), sentinel.WithResourceType(rty)}
 		if t[3] == "in" {
 			opts = append(opts, sentinel.WithTrafficType(base.Inbound))
 		} else {
@@ -408,6 +477,31 @@ func (it *Interp) Step(t []string, op string) string {
 		} else {
 			x.e.Exit()
 		}
+		x.exited = true
+		return ""
+	case "racexit":
+		x := it.ents[t[1]]
+		if x.e == nil {
+			return ""
+		}
+		var opts []base.ExitOption
+		if len(t) > 2 {
+			opts = append(opts, base.WithError(mkErr(t[2])))
+		}
+		it.rv.arm()
+		var wg sync.WaitGroup
+		start := make(chan struct{})
+		for k := 0; k < 2; k++ {
+			wg.Add(1)
+			go func() {
+				defer wg.Done()
+				<-start
+				x.e.Exit(opts...)
+			}()
+		}
+		close(start)
+		wg.Wait()
+		it.rv.disarm()
 		x.exited = true
 		return ""
 	case "read":
